@@ -35,6 +35,10 @@ def gen_pair(tier, thin_only=False, max_cells=None, weights=False, solvers=("dir
         o["aa_restart"] = draw(st.sampled_from([None, 5])) if o["aa_depth"] else None
         o["num_iter"] = draw(st.integers(3, 40 if tier == "quick" else 120))
         o["tol"] = draw(st.sampled_from([None, 1e-8, 1e-8]))
+        if o["formulation"] == "flux_reduced" and o["linear_solver"] in ("amg", "cg"):
+            # known finding C08-flux-reduced-iterative (wrong linear solves): excluded by construction
+            # here, the metric laws are about the transport problem, not about that back-end
+            o["linear_solver"] = "direct"
         case = {"grid": g, "mass": draw(wass.mass_specs()), "opt": o}
         if weights:
             case["cweight"] = draw(st.sampled_from([0.5, 2.0, 4.0, 3.0]))
